@@ -7,10 +7,13 @@ model's bytes and this layout coincide byte for byte for every generated program
 (fresh writer, writer reused after a failed program, stale buffer memory, pooled writer, non-empty
 buffer prefix). The theorems below pin the layout facts the property names; C01 proves that the
 library's readers read these bytes back identically.
-PARTIAL: independence of the writer model from the initial buffer content is checked by the `wp:`
-stream, not yet by a theorem.
+`bytes_depend_only_on_tree`: for the API program of any value tree the bytes the writer model returns
+do not depend on the initial buffer content (stale memory, a non-empty prefix) and equal the pinned
+layout of the tree; the other four ways (reuse after a failure, pooling) are `Reset`/`fresh` states
+and are compared on every run by the `wp:` stream.
 -/
 import SpecVerif.Lemmas.ValidParse
+import SpecVerif.Lemmas.WriterTree
 namespace SpecVerif.C08
 open SpecVerif Pinned
 
@@ -78,5 +81,12 @@ theorem readable_by_library (F : FloatOps) (L : C10.FloatLaws F) (b : Bytes) (hv
 example (es : List Bytes) (h : es.length = 256) : isBigList (endOffsets 0 es) = true := by
   have hne : es ≠ [] := by intro h0; subst h0; simp at h
   rw [list_big_iff es hne]; omega
+
+/-- the built bytes depend only on the tree that was written, not on what the buffer held before -/
+theorem bytes_depend_only_on_tree (n : Writer.Node) (buf1 buf2 : Bytes) :
+    (Writer.run (Writer.compRoot n) buf1).1.built = (Writer.run (Writer.compRoot n) buf2).1.built ∧
+    (Writer.run (Writer.compRoot n) buf1).1.built = some n.enc := by
+  rw [(Writer.run_compRoot n buf1).1, (Writer.run_compRoot n buf2).1]
+  exact ⟨rfl, rfl⟩
 
 end SpecVerif.C08
